@@ -4,6 +4,10 @@ import GfaModel.CigarText
 import GfaModel.Geometry
 import GfaModel.GraphObs
 import GfaModel.Field
+import GfaModel.Version
+import GfaModel.Multiply
+import GfaModel.Convert
+import GfaModel.Components
 /- Line protocol of the model driver: `op US arg US arg …` → one reply line. -/
 namespace Gfa
 namespace Driver
@@ -64,6 +68,40 @@ def geoEdge (o1 : Orient) (n1 b1 e1 : Nat) (o2 : Orient) (n2 b2 e2 : Nat) : Stri
     s!"ok keys={",".intercalate (sortStrs [k1, k2])} type={t} from={f}"
   | _, _ => "err"
 
+def dtOfName : String → Option Datatype
+  | "A" => some .A | "i" => some .i | "f" => some .f | "Z" => some .Z | "J" => some .J | "H" => some .H | "B" => some .B
+  | "alignment_gfa1" => some .alnGfa1 | "alignment_list_gfa1" => some .alnListGfa1
+  | "oriented_identifier_list_gfa1" => some .oidListGfa1 | "position_gfa1" => some .posGfa1
+  | "segment_name_gfa1" => some .segNameGfa1 | "sequence_gfa1" => some .seqGfa1 | "path_name_gfa1" => some .pathNameGfa1
+  | "alignment_gfa2" => some .alnGfa2 | "generic" => some .generic | "identifier_gfa2" => some .idGfa2
+  | "oriented_identifier_gfa2" => some .oidGfa2 | "identifier_list_gfa2" => some .idListGfa2
+  | "oriented_identifier_list_gfa2" => some .oidListGfa2 | "optional_identifier_gfa2" => some .optIdGfa2
+  | "position_gfa2" => some .posGfa2 | "custom_record_type" => some .customRecordType | "sequence_gfa2" => some .seqGfa2
+  | "optional_integer" => some .optInt | "comment" => some .comment | "orientation" => some .orientation
+  | _ => none
+
+def kindOfName : String → Option V.Kind
+  | "comment" => some .comment | "hNone" => some .hNone | "hVN1" => some .hVN1 | "hVN2" => some .hVN2
+  | "hBad" => some .hBad | "s1" => some .s1 | "s2" => some .s2 | "g1" => some .g1 | "g2" => some .g2
+  | "custom" => some .custom | _ => none
+
+def tagValStr : TagVal → String
+  | .int i => "int " ++ str (intStr i)
+  | .str s => "str " ++ str s
+  | .chr c => "chr " ++ String.ofList [c]
+  | .bytes bs => "bytes " ++ str (Field.hexOf bs)
+  | .intArr xs => "intarr " ++ ",".intercalate (xs.map (fun x => str (intStr x)))
+  | .opaque d s => "opaque " ++ String.ofList [d] ++ " " ++ str s
+
+def parseTagVal (kind : String) (p : List Char) : Option TagVal :=
+  match kind with
+  | "int" => (intOf? p).map .int
+  | "str" => some (.str p)
+  | "chr" => (match p with | [c] => some (.chr c) | _ => none)
+  | "bytes" => if p.isEmpty then some (.bytes []) else ((Field.splitOn ',' p).mapM natOf?).map .bytes
+  | "intarr" => if p.isEmpty then some (.intArr []) else ((Field.splitOn ',' p).mapM intOf?).map .intArr
+  | _ => none
+
 /-- stateless commands -/
 def pure? (cmd : String) (args : List (List Char)) : Option String :=
   match cmd, args with
@@ -89,6 +127,58 @@ def pure? (cmd : String) (args : List (List Char)) : Option String :=
     some (match parseLink f fo t too o, parseLink f' fo' t' too' o' with
     | some a, some b => s!"ok {b2s (a.compatible b.frm b.fo b.to b.too b.ovl)}"
     | _, _ => "err")
+  | "field.accept", [dt, s] =>
+    some (match dtOfName (str dt) with
+    | some d => "ok " ++ b2s (Field.accept d s)
+    | none => "bad-op")
+  | "tag.decode", [dt, s] =>
+    some (match dt with
+    | [c] => (match Field.decode c s with
+      | some v => "ok " ++ tagValStr v
+      | none => "err")
+    | _ => "bad-op")
+  | "tag.encode", [kind, payload] =>
+    some (match parseTagVal (str kind) payload with
+    | some v => (match Field.encode v with
+      | some t => "ok " ++ String.ofList [Field.datatypeOf v] ++ ":" ++ str t
+      | none => "err")
+    | none => "bad-op")
+  | "ver.build", explicit :: kinds =>
+    some (let ex := if explicit = "gfa1".toList then some V.Ver.gfa1 else if explicit = "gfa2".toList then some V.Ver.gfa2 else none
+      match kinds.mapM (fun k => kindOfName (str k)) with
+      | some ks => (match V.build ex ks with
+        | some (v, n) => s!"ok {match v with | .gfa1 => "gfa1" | .gfa2 => "gfa2"} {n}"
+        | none => "gerr VersionError")
+      | none => "bad-op")
+  | "mul.auto", [k, b, e, eq] =>
+    some (match natOf? k, natOf? b, natOf? e with
+    | some k, some b, some e =>
+      (match Mul.autoSelect k b e (eq = ['1']) with
+      | some true => "ok R" | some false => "ok L" | none => "ok None")
+    | _, _, _ => "bad-op")
+  | "mul.windows", [n, k] =>
+    some (match natOf? n, natOf? k with
+    | some n, some k =>
+      "ok " ++ ";".intercalate ((List.range k).map (fun i =>
+        ",".intercalate (((List.range n).filter (Mul.keeps n k i)).map toString)))
+    | _, _ => "bad-op")
+  | "mul.names", used :: count :: cand :: [] =>
+    some (match (Field.splitOn ',' used).filter (· ≠ []) |>.mapM natOf?, natOf? count, natOf? cand with
+    | some u, some c, some d => "ok " ++ ",".intercalate ((Mul.copyNums u c d).map toString)
+    | _, _, _ => "bad-op")
+  | "conv.link", [fo, too, nf, nt, c] =>
+    some (match fo, too with
+    | [a], [b] =>
+      (match Orient.ofChar? a, Orient.ofChar? b, natOf? nf, natOf? nt, Cigar.parse c with
+      | some fo, some too, some nf, some nt, some cg =>
+        let e := Conv.edgeOfLink "A" fo "B" too cg nf nt
+        let p (x n : Nat) : String := if x = n then s!"{x}$" else s!"{x}"
+        let back := match Conv.gfa1OfEdge e nf nt with
+          | some (t, l, _) => (match t with | .L => "L" | .C => "C" | .I => "I") ++ " " ++ printLink l
+          | none => "none"
+        s!"ok {p e.b1 nf} {p e.e1 nf} {p e.b2 nt} {p e.e2 nt} | {back}"
+      | _, _, _, _, _ => "err")
+    | _, _ => "bad-op")
   | "geo.edge", [o1, n1, b1, e1, o2, n2, b2, e2] =>
     some (match o1, o2 with
     | [c1], [c2] =>
@@ -122,6 +212,11 @@ def step (d : DState) (cmd : String) (args : List (List Char)) : DState × Strin
   | "g.rm", [n] => gres d (G.rm d.g (str n))
   | "g.rename", [a, b] => gres d (G.rename d.g (str a) (str b))
   | "g.obs", [] => (d, "ok " ++ G.obs d.g)
+  | "g.cc", [] =>
+    (d, "ok " ++ ";".intercalate (sortStrs ((G.components d.g).map (fun c => ",".intercalate (sortStrs c)))))
+  | "g.cc1", [s] => (d, "ok " ++ ",".intercalate (sortStrs (G.component d.g (str s))))
+  | "g.counts", [] =>
+    (d, s!"ok dovetails={G.nDovetails d.g} containments={G.nContainments d.g} internals={G.nInternals d.g} dead_ends={G.nDeadEnds d.g}")
   | _, _ =>
     match pure? cmd args with
     | some r => (d, r)
